@@ -12,7 +12,7 @@ from .extract import Index
 from .interp import Interp, State
 from .lift import Lifter
 from .values import (
-    ClassVal, EnumVal, ExcVal, FuncVal, HDict, HInst, HList, HSymMap, Opaque, Ref, SymBytes, SymSeq, Unsupported, is_sym,
+    ClassVal, EnumVal, ExcVal, FuncVal, HDict, HInst, HList, HSymMap, Opaque, Ref, Rope, SymBytes, SymSeq, Unsupported, is_sym,
     is_symbool, is_symint, to_z3bool,
 )
 
@@ -41,6 +41,7 @@ class Engine:
         I.overrides["vf.contracts.rt.assume"] = _rt_assume
         I.overrides["vf.contracts.rt.ghost"] = _rt_ghost
         I.overrides["vf.contracts.rt.require"] = _rt_require
+        I.overrides["vf.contracts.rt.flat"] = _rt_flat
         I.overrides["vf.contracts.rt.fresh_int"] = _rt_fresh_int
         return I
 
@@ -82,6 +83,16 @@ def _rt_require(I, args, kwargs, st):
         if b:
             out.append(("val", None, s))
     return out
+
+
+def _rt_flat(I, args, kwargs, st):
+    """Concatenation of the pieces of a file's ghost log (piece boundaries are not observable in a file)."""
+    from .models import rope_norm
+    items = I.iterate(args[0], st)
+    for x in items:
+        if isinstance(x, tuple):
+            raise Unsupported("flat(): the log contains a seek")
+    return [("val", rope_norm(Rope(items)), st)]
 
 
 def _rt_ghost(I, args, kwargs, st):
@@ -291,6 +302,11 @@ def materialize(engine: Engine, B: Builder, st: State, value, model, seen=None):
                 x = ev(z3.Select(v.arr, off + i))
                 data.append(x % 256 if isinstance(x, int) else 0)
             return {"k": "bytes" if v.kind == "bytes" else "str", "v": data}
+        if isinstance(v, Rope):
+            data = []
+            for c in v.chunks:
+                data += go(c)["v"]
+            return {"k": "bytes", "v": data}
         if isinstance(v, tuple):
             return {"k": "tuple", "v": [go(x) for x in v]}
         if isinstance(v, frozenset):
